@@ -305,6 +305,13 @@ class World:
                     lhs, backtrack=bt == "T", transfer=tr == "T"
                 )
                 return self.report(n, "same" if res is lhs else "new", res)
+            case ["joinb", n, ln, rn, cols, px]:
+                # the binary operation itself: Join(pred, min_columns=S, max_columns=S).apply(lhs, rhs)
+                from lsst.daf.relation import Join
+                lhs, rhs = self.pool[ln], self.pool[rn]
+                common = self.cols(cols)
+                res = Join(self.pred(px), min_columns=common, max_columns=common).apply(lhs, rhs)
+                return self.report(n, "new", res)
             case ["predjoin", px, ln, rn]:
                 # use a predicate OBJECT in a join, then look at what it declares afterwards
                 p = self.pred(px)
@@ -497,8 +504,15 @@ class World:
                 def ev(r):
                     # the engine converts a predicate ONCE and applies the callable to every row: apply the
                     # same callable several times; a callable whose answers differ is not a function of the row
+                    # The callable is first applied to OTHER rows (as when a relation is iterated): its answer on
+                    # `r` must not depend on the rows it saw before.
                     try:
                         f = eng.convert_predicate(p)
+                        for primer in ({k: v + 1 for k, v in r.items()}, {k: -v - 2 for k, v in r.items()}):
+                            try:
+                                f(primer)
+                            except Exception:  # noqa: BLE001
+                                pass
                         vals = [show_bool(bool(f(r))) for _ in range(3)]
                     except Exception:  # noqa: BLE001
                         return "err"
@@ -534,7 +548,13 @@ class World:
 
                 def ev(r):
                     try:
-                        return str(int(eng.convert_column_expression(e)(r)))
+                        f = eng.convert_column_expression(e)
+                        for primer in ({k: v + 1 for k, v in r.items()}, {k: -v - 2 for k, v in r.items()}):
+                            try:
+                                f(primer)      # rows seen before must not influence the value on `r`
+                            except Exception:  # noqa: BLE001
+                                pass
+                        return str(int(f(r)))
                     except Exception:  # noqa: BLE001
                         return "err"
 
